@@ -32,7 +32,17 @@ def load_findings(prop):
         return []
     with open(KNOWN_FILE) as fh:
         allf = json.load(fh)
-    return [f for f in allf.get("findings", []) if f["property"] == prop]
+    out = []
+    for f in allf.get("findings", []):
+        if f["property"] == prop:
+            out.append(f)
+        elif f["status"] == "open" and prop in f.get("applies_to", []):
+            # the same recorded history also reaches this property's workload: reproduced under its own property's oracle,
+            # reported and quarantined here as well
+            g = dict(f)
+            g["_home"] = f["property"]
+            out.append(g)
+    return out
 
 
 def _engine(name):
@@ -106,7 +116,7 @@ def run_check(prop, tier):
                 cfg0 = dict(run_cfg)
                 cfg0["quarantine"] = []
                 try:
-                    res = _replay(engine, body["trace"], prop, cfg0)
+                    res = _replay(engine, body["trace"], f.get("_home", prop), cfg0)
                     still = bool(res.violation) and res.violation["oracle"] == f["oracle"]
                 except RunTimeout:
                     still = f["oracle"] == "liveness"
@@ -200,7 +210,7 @@ def run_check(prop, tier):
             path, small, v2 = orig_path, trace, v
         matched = None
         for f in findings:
-            if f["status"] == "open" and f["oracle"] == v2["oracle"] and f.get("trigger"):
+            if f["status"] == "open" and (f["oracle"] == v2["oracle"] or f.get("_home")) and f.get("trigger"):
                 if engine.match_finding(f["trigger"], small, v2):
                     matched = f
                     break
